@@ -7,6 +7,7 @@ import (
 	"sort"
 	"strings"
 	"sync"
+	"sync/atomic"
 	"time"
 
 	"golang.org/x/tools/go/ssa"
@@ -82,6 +83,7 @@ type JobResult struct {
 	Wall      time.Duration
 	Asserts   int
 	Donated   int
+	Aborted   bool
 }
 
 type Worker struct {
@@ -102,6 +104,7 @@ type RunConfig struct {
 	Verbose     bool
 	TLimitMs    int
 	MaxPaths    int
+	StopAfter   time.Duration
 }
 
 func newWorker(id int, w *World, cfg *RunConfig) (*Worker, error) {
@@ -129,7 +132,7 @@ func (wk *Worker) close() {
 
 func newInterp(w *World, tt *TermTable, ex *Explorer, job *Job, funcs map[string]int) *Interp {
 	in := &Interp{w: w, tt: tt, ex: ex, globals: map[*ssa.Global]Ptr{}, funcsRun: funcs,
-		reach: map[string]bool{}, builders: map[*Val]*[]Piece{}, ioErrs: map[string]*ErrV{}}
+		reach: map[string]bool{}, builders: map[*Val]*[]Piece{}, ioErrs: map[string]*ErrV{}, pools: map[*Val][]Val{}}
 	in.noIfConv = os.Getenv("VERIF_NO_IFCONV") != ""
 	in.stepBudget = job.StepBudget
 	if in.stepBudget == 0 {
@@ -322,6 +325,16 @@ func (wk *Worker) runJob(job *Job) *JobResult {
 		if len(res.Inconc) > 20 {
 			break
 		}
+		if wk.pool != nil {
+			if len(res.Viols) > 0 {
+				atomic.StoreInt32(&wk.pool.violFound, 1)
+			}
+			if wk.pool.stopAfter > 0 && atomic.LoadInt32(&wk.pool.violFound) == 1 && time.Since(wk.pool.start) > wk.pool.stopAfter {
+				atomic.StoreInt32(&wk.pool.stopped, 1)
+				res.Aborted = true
+				break
+			}
+		}
 		if wk.cfg.MaxPaths > 0 && res.Paths >= wk.cfg.MaxPaths {
 			res.Inconc = append(res.Inconc, "max paths reached")
 			break
@@ -382,7 +395,11 @@ func dedupStrings(a []string) []string {
 
 // Pool is the shared job queue.
 type Pool struct {
-	mu      sync.Mutex
+	start     time.Time
+	stopAfter time.Duration // once a violation was found, stop exploring after this long
+	violFound int32
+	stopped   int32
+	mu        sync.Mutex
 	cond    *sync.Cond
 	queue   []*Job
 	pending int // queued + running
@@ -410,7 +427,7 @@ func (p *Pool) submit(jobs []*Job) {
 // runPool runs all jobs (and the sub-jobs they split into or donate) on
 // cfg.Workers workers.
 func runPool(w *World, cfg *RunConfig, jobs []*Job) ([]*JobResult, error) {
-	p := &Pool{queue: append([]*Job{}, jobs...), pending: len(jobs)}
+	p := &Pool{queue: append([]*Job{}, jobs...), pending: len(jobs), start: time.Now(), stopAfter: cfg.StopAfter}
 	p.cond = sync.NewCond(&p.mu)
 	var wg sync.WaitGroup
 	for i := 0; i < cfg.Workers; i++ {
@@ -439,6 +456,17 @@ func runPool(w *World, cfg *RunConfig, jobs []*Job) ([]*JobResult, error) {
 				p.queue = p.queue[1:]
 				p.mu.Unlock()
 				var res *JobResult
+				if atomic.LoadInt32(&p.stopped) == 1 {
+					// a violation was found and the time budget is used up:
+					// the remaining jobs are not explored
+					res = &JobResult{Job: job, Outcomes: map[string]int{}, Viols: map[string]*ViolGroup{}, Reach: map[string]bool{}, Funcs: map[string]int{}, Aborted: true}
+					p.mu.Lock()
+					p.results = append(p.results, res)
+					p.pending--
+					p.mu.Unlock()
+					p.cond.Broadcast()
+					continue
+				}
 				func() {
 					defer func() {
 						if r := recover(); r != nil {
